@@ -421,8 +421,8 @@ Proof.
         -- (* the time-out *)
            apply Z.leb_le in EQ. exists Final. split; [|repeat split; intros; try congruence; try discriminate; right; cbn; lia].
            unfold k1 in *. destruct (M <=? k) eqn:EM.
-           ++ exists t0. cbv iota. rewrite ev_tim_final_ovf by (try assumption; lia). constructor; assumption.
-           ++ exists nw. cbv iota. apply Z.leb_gt in EM. destruct Hk as [-> | Hk].
+           ++ exists t0. rewrite EM. rewrite ev_tim_final_ovf by (try assumption; lia). constructor; assumption.
+           ++ exists nw. rewrite EM. apply Z.leb_gt in EM. destruct Hk as [-> | Hk].
               ** kc. cbv iota. rewrite ev_tim_final_ovf by (try assumption; lia). constructor; assumption.
               ** replace (k =? -1) with false by (symmetry; apply Z.eqb_neq; lia).
                  destruct ((k =? 1) && negb (g =? NOREL)) eqn:EL.
